@@ -67,6 +67,18 @@ def main(tier):
     for fn, trig in (("escape", b'&<>"'), ("escape_href", None)):
         lines = [f"{fn} {hx(s)}" for s in cases]
         impl = vlib.run_lines(vh, lines)
+        # the Context wrappers (what a custom formatter calls) must be the same functions, byte for byte
+        wsub = list(range(0, len(cases), 1 if tier != "quick" else 3))
+        wimpl = vlib.run_lines(vh, [f"ctx_{fn} {hx(cases[i])}" for i in wsub])
+        wag = 0
+        for i, w in zip(wsub, wimpl):
+            c.count(b"ctx_" + fn.encode() + b":" + cases[i], True)
+            if w != impl[i]:
+                c.violation(f"Context::{fn} (the wrapper a custom formatter calls) differs from html::{fn}",
+                            {"fn": "ctx_" + fn, "input": hx(cases[i]), "wrapper": w[:300], "function": impl[i][:300], "line": f"ctx_{fn} {hx(cases[i])}"})
+            else:
+                wag += 1
+        c.cov["correspondences"][f"leaf.Context::{fn} = html::{fn}"] = {"cases": len(wsub), "agree": wag}
         model = vlib.run_lines(drv, lines)
         agree = 0
         for s, a, m in zip(cases, impl, model):
